@@ -5,7 +5,7 @@
     frozen statement skeletons; the endpoint-side selects have an arm that is
     eventually ready. *)
 From Coq Require Import List NArith Bool String.
-From Verif Require Import Sni.SchedSkel Sni.Shutdown Sni.ShutdownCfg Gen.TransportSkel.
+From Verif Require Import Sni.SchedSkel Sni.Shutdown Sni.ShutdownEndpoint Sni.ShutdownCfg Gen.TransportSkel.
 Import ListNotations.
 Local Open Scope string_scope.
 
@@ -19,6 +19,7 @@ Lemma gen_cfg_arms :
   wait_arms gen_cfg = [ARecv "ctx.Done()"; ARecv "done"; ARecv "tr.serveDone"] /\
   fsend_arms gen_cfg = [ASend "tr.pendingFetch"; ARecv "tr.serveDone"] /\
   frecv_arms gen_cfg = [ARecv "ch"; ARecv "tr.serveDone"] /\
+  box_arms gen_cfg = [ARecv "ctx.Done()"; ARecv "b.closed"; ARecv "gone"; ARecv "b.ch"] /\
   calls_cap gen_cfg = 128%N /\ fetch_cap gen_cfg = 5%N.
 Proof. vm_compute. repeat split. Qed.
 
@@ -51,6 +52,9 @@ Qed.
 Definition first_point (fn : string) : list arm :=
   nth 0 (points_of fn gen_transport_blocking) [].
 
+Definition last_point (fn : string) : list arm :=
+  last (points_of fn gen_transport_blocking) [].
+
 (** Endpoint side: Accept returns once the endpoint's serve loop has ended
     or the endpoint is closed; Close and sendAccept wait behind a timer;
     the side-connection mailbox waits behind the caller's context and its
@@ -62,8 +66,8 @@ Lemma gen_endpoint_guarded :
   has_arm (ARecv "p.serveDone") (first_point "Endpoint.Close") = true /\
   has_arm (ARecv "timer.C") (first_point "Endpoint.sendAccept") = true /\
   has_arm (ARecv "p.closed") (first_point "Endpoint.sendAccept") = true /\
-  has_arm (ARecv "ctx.Done()") (first_point "connMailBox.receive") = true /\
-  has_arm (ARecv "b.closed") (first_point "connMailBox.receive") = true /\
+  has_arm (ARecv "ctx.Done()") (last_point "connMailBox.receive") = true /\
+  has_arm (ARecv "b.closed") (last_point "connMailBox.receive") = true /\
   has_arm ADefault (first_point "connMailBox.deliver") = true /\
   has_arm (ARecv "tr.serveDone") (first_point "transport.shutdown") = true.
 Proof. vm_compute. repeat split. Qed.
@@ -270,4 +274,80 @@ Definition frozen_JoinConn : list string :=
       "2 return nil" ].
 
 Lemma gen_JoinConn_frozen : skel_is gen_transport_skel "JoinConn" frozen_JoinConn = true.
+Proof. vm_compute. reflexivity. Qed.
+
+(** The side dial: Dial passes the transport's serveDone to the mailbox as [gone]. *)
+Definition frozen_mailboxReceive : list string :=
+  [ "0 select";
+      "1 case ARecv ""ctx.Done()""";
+      "2 return nil, ctx.Err()";
+      "1 case ARecv ""b.closed""";
+      "2 return nil, errcode.TimeOutf(""closed"")";
+      "1 case ARecv ""gone""";
+      "2 select";
+      "3 case ARecv ""b.ch""";
+      "4 return conn, nil";
+      "3 case ADefault";
+      "2 return nil, io.ErrUnexpectedEOF";
+      "1 case ARecv ""b.ch""";
+      "2 return conn, nil" ].
+
+Lemma gen_mailboxReceive_frozen : skel_is gen_transport_skel "connMailBox.receive" frozen_mailboxReceive = true.
+Proof. vm_compute. reflexivity. Qed.
+
+Definition frozen_clientDial : list string :=
+  [ "0 if !c.options.Siding";
+      "1 assign req := &dialRequest{}";
+      "1 assign resp := new(dialResponse)";
+      "1 assign err := c.tr.call(ctx, msgDial, req, resp)";
+      "1 if err != nil";
+      "2 return nil, err";
+      "1 if resp.err != nil";
+      "2 return nil, resp.err";
+      "1 return newTunnel(c.tr, resp.session), nil";
+      "0 assign token, err := c.token()";
+      "0 if err != nil";
+      "1 return nil, errcode.Annotate(err, ""get side token"")";
+      "0 call c.randMu.Lock()";
+      "0 assign key := c.rand.Uint64()";
+      "0 call c.randMu.Unlock()";
+      "0 assign k := &sessionKey{ ID: c.ids.next(), Key: key, }";
+      "0 assign box := c.office.newBox(k)";
+      "0 defer box.cleanUp()";
+      "0 assign resp := new(dialResponse)";
+      "0 if c.options.DialWithAddr";
+      "1 assign req := &dialSide2Request{ session: k.ID, key: k.Key, token: token, tcpAddr: asAddr, }";
+      "1 assign err := c.tr.call(ctx, msgDialSide2, req, resp)";
+      "1 if err != nil";
+      "2 return nil, err";
+      "0 else";
+      "1 assign req := &dialSideRequest{ session: k.ID, key: k.Key, token: token, }";
+      "1 assign err := c.tr.call(ctx, msgDialSide, req, resp)";
+      "1 if err != nil";
+      "2 return nil, err";
+      "0 if resp.err != nil";
+      "1 return nil, resp.err";
+      "0 return box.receive(ctx, c.tr.serveDone)" ].
+
+Lemma gen_clientDial_frozen : skel_is gen_transport_skel "endpointClient.Dial" frozen_clientDial = true.
+Proof. vm_compute. reflexivity. Qed.
+
+(** ** The endpoint side *)
+
+Lemma gen_ecfg_guarded : eguarded gen_ecfg = true.
+Proof. vm_compute. reflexivity. Qed.
+
+Lemma gen_ecfg_arms :
+  accept_arms gen_ecfg = [ARecv "p.incoming"; ARecv "p.serveDone"; ARecv "p.closed"] /\
+  close_arms gen_ecfg = [ARecv "timer.C"; ARecv "p.serveDone"] /\
+  send_arms gen_ecfg = [ARecv "timer.C"; ASend "p.incoming"; ARecv "p.closed"].
+Proof. vm_compute. repeat split. Qed.
+
+Definition frozen_newEndpoint : list string :=
+  [ "0 assign ep := &Endpoint{ conn: conn, addr: d.address(), server: newEndpointServer(conn, d, opt), serveDone: make(chan struct{}), incoming: make(chan net.Conn, 10), closed: make(chan struct{}), }";
+      "0 call ep.server.setAccept(ep.sendAccept)";
+      "0 go ep.serve()";
+      "0 return ep" ].
+
+Lemma gen_newEndpoint_frozen : skel_is gen_transport_skel "newEndpoint" frozen_newEndpoint = true.
 Proof. vm_compute. reflexivity. Qed.
